@@ -14,7 +14,7 @@ from props.common import scale, depth_of
 from props.container_common import CODECS, spec_parse, decomp_table, ParseError, ReadOnly
 from props.c04 import build_cases, write_impl, resolve_interval
 
-THEOREMS = ["c06_truncation", "c06_sync", "c06_schemaless_prefix"]
+THEOREMS = ["c06_truncation", "c06_boundary", "c06_sync", "c06_schemaless_prefix"]
 TARGETS = ["Properties.TablesContainer", "Properties.C06"]
 
 
